@@ -7,6 +7,7 @@ mod parsecases;
 mod dictops;
 mod gen;
 mod proj;
+mod progress;
 mod rng;
 mod sessions;
 mod train;
@@ -38,6 +39,7 @@ fn main() {
         std::panic::set_hook(Box::new(|_| {}));
     }
     let (cmd, a) = args_map();
+    progress::init(a.get("progress"));
     let code = match cmd.as_str() {
         "record-sessions" => sessions::record(&a),
         "replay-sessions" => sessions::replay(&a),
@@ -54,11 +56,13 @@ fn main() {
         "record-rewrite" => trainer_cases::record_rewrite(&a),
         "expand-cases" => trainer_cases::expand_cases(&a),
         "record-expand" => trainer_cases::record_expand(&a),
+        "record-fsets" => trainer_cases::record_fsets(&a),
         "corpus-cases" => trainer_cases::corpus_cases(&a),
         "record-corpus" => trainer_cases::record_corpus(&a),
         "record-mecab-lines" => trainer_cases::record_mecab_lines(&a),
         "record-train" => train::record(&a),
         "replay-train" => train::replay(&a),
+        "record-trainlat" => train::record_lat(&a),
         "cli-train" => train::cli_train(&a),
         "record-mecab" => trainer_cases::record_mecab(&a),
         "cli-pipeline" => cli::pipeline(&a),
